@@ -71,7 +71,7 @@ func curGID() int64 {
 
 var stackBuf = make([]byte, 1<<20)
 
-// blockedInWait reports whether goroutine gid is parked inside sync.(*WaitGroup).Wait.
+// blockedInWait reports whether goroutine gid is parked inside Process.Join waiting for children.
 func blockedInWait(gid int64) bool {
 	n := runtime.Stack(stackBuf, true)
 	s := stackBuf[:n]
@@ -93,14 +93,16 @@ func blockedInWait(gid int64) bool {
 		return false
 	}
 	state := string(rest[:end])
-	if !(strings.HasPrefix(state, "semacquire") || strings.HasPrefix(state, "sync.WaitGroup.Wait")) {
+	if !(strings.HasPrefix(state, "semacquire") || strings.HasPrefix(state, "sync.WaitGroup.Wait") || strings.HasPrefix(state, "sync.Cond.Wait")) {
 		return false
 	}
 	blk := rest
 	if k := bytes.Index(rest, []byte("\n\n")); k >= 0 {
 		blk = rest[:k]
 	}
-	return bytes.Contains(blk, []byte("sync.(*WaitGroup).Wait"))
+	// Join is a WaitGroup.Wait in the original code and a Cond.Wait loop after fix 37f33b8
+	return bytes.Contains(blk, []byte("process.(*Process).Join")) &&
+		(bytes.Contains(blk, []byte("sync.(*WaitGroup).Wait")) || bytes.Contains(blk, []byte("sync.(*Cond).Wait")))
 }
 
 // ------------------------------------------------------------------ deterministic world
